@@ -17,7 +17,9 @@ use std::collections::BTreeSet;
 use std::io::Write;
 use std::path::PathBuf;
 
-const NUMS: [f64; 22] = [
+const NUMS: [f64; 25] = [
+    // between the relative tolerance 1e-9 and plausible wrong omission thresholds
+    1.0000001, 0.9999999, 1e-7,
     0.0, 1.0, -1.0, 10.0, 250.0, -37.5, 0.25, 1000.0, 123456789.0, -0.0, 3.14159, 1e300, -1e300, 1e-300, 5e-324, 2.2250738585072014e-308,
     0.1, 1.0000000000000002, 0.9999999999999999, 0.9999999999999998, 1.0000000000000004, 4294967296.5,
 ];
